@@ -10,6 +10,7 @@ directory is compared with StrainSpec's value.  The real Taster must accept the 
 import os
 
 from harness import alpha, compare, core, gamma, shims, tlc, util
+from harness import spell
 
 NAMES3 = '<<"a","b","c">>'
 NAMES4 = '<<"a","b","c","d">>'
@@ -81,7 +82,7 @@ def run_scenario(chk, sc, cfgseed, ndims=3, payload="wild", flavour="sched", wor
     sched = shims.Scheduler(plan=plan, workers=workers)
     try:
         with shims.pool_shim(sched, flavour), core.quiet():
-            cld = Colander(plotfile=src, limit_level=sc["lim"], output=out, variables=list(sc["vars"]))
+            cld = Colander(plotfile=spell.of(src, cfgseed)[0], limit_level=sc["lim"], output=out, variables=list(sc["vars"]))
             cld.strain()
     except Exception as e:
         return "colander raised %s: %s" % (type(e).__name__, str(e)[:200])
@@ -109,6 +110,14 @@ def run_scenario(chk, sc, cfgseed, ndims=3, payload="wild", flavour="sched", wor
 
 
 def run(chk, replay):
+    _run(chk, replay)
+    if not replay:
+        # the working directory changes between runs on plotfiles typed under a relative name (PoolEnv.tla)
+        from harness import poolenv
+        poolenv.tool_phase(chk, "colander")
+
+
+def _run(chk, replay):
     chk.rule = ("behaviours of Colander.tla emitted by TLC (input layout x variable list x level limit "
                 "x pool completion order), each replayed into the real Colander; a signature is "
                 "(levels, limit, variable-list class, per-level (files, mono/non-mono disk order), "
